@@ -62,6 +62,9 @@ func (r structReflect) Set(key string, val Value) {
 		panic(fmt.Sprintf("key %s may not be set on struct %T: field does not exist", key, r.Value.Interface()))
 	}
 	oldVal := fieldEntry.GetFrom(r.Value)
+	if !oldVal.IsValid() {
+		panic(fmt.Sprintf("key %s may not be set on struct %T: field is in an inlined struct behind a nil pointer", key, r.Value.Interface()))
+	}
 	newVal := reflect.ValueOf(val.Unstructured())
 	r.update(fieldEntry, key, oldVal, newVal)
 }
@@ -72,6 +75,10 @@ func (r structReflect) Delete(key string) {
 		panic(fmt.Sprintf("key %s may not be deleted on struct %T: field does not exist", key, r.Value.Interface()))
 	}
 	oldVal := fieldEntry.GetFrom(r.Value)
+	if !oldVal.IsValid() {
+		// already absent: the field is in an inlined struct behind a nil pointer
+		return
+	}
 	if oldVal.Kind() != reflect.Ptr && !fieldEntry.isOmitEmpty {
 		panic(fmt.Sprintf("key %s may not be deleted on struct: %T: value is neither a pointer nor an omitempty field", key, r.Value.Interface()))
 	}
